@@ -28,7 +28,8 @@ RULE = (
     "exhaustive: every labelled DAG on <=5 nodes (quick; 29 853 graphs) / exactly 6 nodes "
     "(thorough; +3 781 503), each with three weight vectors (all 1, i+1, hash-derived 1..3); "
     "generated: Hypothesis random DAGs up to 40 nodes with shuffled insertion order, digraphs with "
-    "a cycle, and TaskGraph/JobGraph instances with runtimes as weights. Non-trivial = DAG with "
+    "a cycle, TaskGraph/JobGraph instances with runtimes as weights (incl. a TaskGraph grown task by task), and mutation histories of "
+    "one Graph object (add_node / add_child / remove / refused add_child) re-queried after every step. Non-trivial = DAG with "
     ">= 2 sources, or a skip edge, or two source-sink paths of equal maximum weight; distinct by "
     "(n, edge set, insertion order, weights)."
 )
